@@ -393,6 +393,7 @@ async fn run_case(line: &str, initial: DecodeLevel) -> String {
     let mut tail: Option<Vec<u8>> = None;
     // stale frames (FS) waiting to be delivered in the same read chunk as the next large frame (FL)
     let mut carry: Vec<u8> = Vec::new();
+    let mut ffi: Option<FfiChannel> = None;
 
     for (step_index, step) in script.split_whitespace().enumerate() {
         ctl.lock().unwrap().step = step_index;
@@ -523,7 +524,8 @@ async fn run_case(line: &str, initial: DecodeLevel) -> String {
                     let what = p[0].to_string();
                     let lvl = if p[0] == "L" { level(p[1]) } else { DecodeLevel::nothing() };
                     if style == "x" {
-                        let mut f = FfiChannel::new(ch);
+                        // ONE FfiChannel for the settings, as an application keeps it (whatever state it holds lives across calls)
+                        let f = ffi.get_or_insert_with(|| FfiChannel::new(ch));
                         let _ = match what.as_str() {
                             "E" => f.enable(),
                             "D" => f.disable(),
@@ -549,6 +551,7 @@ async fn run_case(line: &str, initial: DecodeLevel) -> String {
             }
             "H" => {
                 handles.pop();
+                ffi = None; // it holds a sender of its own: gone with the handle it was made from
             }
             "A" => jh.abort(),
             "CO" | "CE" => {
